@@ -348,12 +348,93 @@ class SimFS(object):
         self._saved = (real_open, real_exists)
         builtins.open = sim_open
         os.path.exists = sim_exists
+        # directory / file manipulation through os.*: simulated for /sim paths (and recorded as side effects)
+        self._saved_os = {}
+
+        def wrap(name, sim_fn):
+            real = getattr(os, name)
+            self._saved_os[name] = real
+
+            def f(path, *a, **k):
+                if is_sim(path) or (a and is_sim(a[0])):
+                    return sim_fn(path, *a, **k)
+                return real(path, *a, **k)
+
+            setattr(os, name, f)
+
+        def mk(path, *a, **k):
+            p = posixpath.normpath(path)
+            exist_ok = k.get("exist_ok", False) or (len(a) > 1 and a[1])
+            if fs.isdir(p) or p in fs.files:
+                if exist_ok and fs.isdir(p):
+                    return None
+                raise FileExistsError(errno.EEXIST, os.strerror(errno.EEXIST), path)
+            fs.dirs.add(p)
+            fs.mutations += 1
+            fs.log.emit("fs", op="mkdir", path=p)
+            return None
+
+        def mkdirs(path, *a, **k):
+            p = posixpath.normpath(path)
+            if fs.isdir(p):
+                if k.get("exist_ok", False) or (len(a) > 1 and a[1]):
+                    return None
+                raise FileExistsError(errno.EEXIST, os.strerror(errno.EEXIST), path)
+            parts = p.split("/")
+            for i in range(2, len(parts) + 1):
+                q = "/".join(parts[:i])
+                if q and not fs.isdir(q):
+                    fs.dirs.add(q)
+            fs.mutations += 1
+            fs.log.emit("fs", op="makedirs", path=p)
+            return None
+
+        def rm(path, *a, **k):
+            p = posixpath.normpath(path)
+            if p not in fs.files:
+                raise _oserror("ENOENT", path)
+            del fs.files[p]
+            fs.mutations += 1
+            fs.log.emit("fs", op="remove", path=p)
+
+        def mv(src, dst, *a, **k):
+            s_, d_ = posixpath.normpath(src), posixpath.normpath(dst)
+            if s_ not in fs.files:
+                raise _oserror("ENOENT", src)
+            fs.files[d_] = fs.files.pop(s_)
+            fs.mutations += 1
+            fs.log.emit("fs", op="rename", path=s_, to=d_)
+
+        def rmdir(path, *a, **k):
+            p = posixpath.normpath(path)
+            fs.dirs.discard(p)
+            fs.mutations += 1
+            fs.log.emit("fs", op="rmdir", path=p)
+
+        for name, fn in (("mkdir", mk), ("makedirs", mkdirs), ("remove", rm), ("unlink", rm), ("rename", mv),
+                         ("replace", mv), ("rmdir", rmdir)):
+            wrap(name, fn)
+        self._saved_path = {}
+        for name, fn in (("isdir", lambda p: fs.isdir(posixpath.normpath(p))),
+                         ("isfile", lambda p: posixpath.normpath(p) in fs.files)):
+            real = getattr(os.path, name)
+            self._saved_path[name] = real
+
+            def g(path, _fn=fn, _real=real):
+                return _fn(path) if is_sim(path) else _real(path)
+
+            setattr(os.path, name, g)
         return self
 
     def uninstall(self):
         if self._saved:
             builtins.open, os.path.exists = self._saved
             self._saved = None
+            for name, real in getattr(self, "_saved_os", {}).items():
+                setattr(os, name, real)
+            for name, real in getattr(self, "_saved_path", {}).items():
+                setattr(os.path, name, real)
+            self._saved_os, self._saved_path = {}, {}
 
     def __enter__(self):
         return self.install()
